@@ -23,6 +23,9 @@ type markerOp struct {
 	K    string          `json:"k"` // move removeobsolete relocate crash
 	Val  string          `json:"val,omitempty"`
 	Surv *simfs.Survival `json:"surv,omitempty"`
+	// Fault, if >0, makes the Fault-th disk operation of this Move fail
+	// (create / write / sync of the marker file, directory sync, remove).
+	Fault int `json:"fault,omitempty"`
 }
 
 func (e *markerEngine) Generate(profile string, seed uint64, tier string) (*Plan, error) {
@@ -35,7 +38,11 @@ func (e *markerEngine) Generate(profile string, seed uint64, tier string) (*Plan
 	for i := 0; i < n; i++ {
 		switch x := r.IntN(10); {
 		case x < 6:
-			ops = append(ops, markerOp{K: "move", Val: fmt.Sprintf("val%d", i)})
+			o := markerOp{K: "move", Val: fmt.Sprintf("val%d", i)}
+			if r.IntN(5) == 0 {
+				o.Fault = 1 + r.IntN(5)
+			}
+			ops = append(ops, o)
 		case x < 7:
 			ops = append(ops, markerOp{K: "removeobsolete"})
 		case x < 8:
@@ -53,7 +60,7 @@ func (e *markerEngine) Generate(profile string, seed uint64, tier string) (*Plan
 type moveRec struct {
 	old, new string
 	startIdx int
-	endIdx   int // -1 while in flight
+	endIdx   int // -1 while in flight, and for ever if the Move returned an error
 }
 
 func (e *markerEngine) Execute(t *testing.T, plan *Plan, res *Result) {
@@ -94,19 +101,19 @@ func (e *markerEngine) Execute(t *testing.T, plan *Plan, res *Result) {
 				if d == first && k < setupIdx {
 					continue // the directory itself is not durable yet
 				}
-				allowed := map[string]bool{}
-				last := base
-				inflight := false
+				// A completed Move leaves exactly its value; a Move in flight at
+				// k, or one that returned an error (its effect is in doubt until
+				// a later Move completes), adds its value as a possibility.
+				allowed := map[string]bool{base: true}
 				for _, mv := range moves {
-					if mv.endIdx >= 0 && mv.endIdx <= k {
-						last = mv.new
-					} else if mv.startIdx <= k {
-						allowed[mv.old], allowed[mv.new] = true, true
-						inflight = true
+					if mv.startIdx > k {
+						break
 					}
-				}
-				if !inflight {
-					allowed[last] = true
+					if mv.endIdx >= 0 && mv.endIdx <= k {
+						allowed = map[string]bool{mv.new: true}
+					} else {
+						allowed[mv.new] = true
+					}
 				}
 				items := curD.UnsyncedItems(0)
 				n := len(items)
@@ -129,16 +136,69 @@ func (e *markerEngine) Execute(t *testing.T, plan *Plan, res *Result) {
 			}
 		}
 		base := ""
+		inDoubt := map[string]bool{} // values of failed Moves since the last completed one
+		okValue := func(v string) bool { return v == cur || inDoubt[v] }
+		hr := simrt.NewRng(plan.Seed, 3100)
+		doCrash := func(spec simfs.Survival) {
+			verify(disk, base)
+			disk = disk.CrashImage(spec)
+			disk.NoYield = true
+			moves = nil
+			var v string
+			m, v, err = atomicfs.LocateMarker(disk, "d", "m")
+			if err != nil || !okValue(v) {
+				simrt.Fail("oracle:marker", fmt.Sprintf("after crash (survival %s): LocateMarker = %q, %v; expected %q (every completed Move is durable) or the value of a failed Move: %v", spec, v, err, cur, keysOf(inDoubt)))
+			}
+			cur, inDoubt = v, map[string]bool{}
+			base = cur
+			res.Stats["crashes"]++
+		}
 		for _, op := range ops {
 			switch op.K {
 			case "move":
 				rec := moveRec{old: cur, new: op.Val, startIdx: disk.LogLen(), endIdx: -1}
 				moves = append(moves, rec)
-				if err := m.Move(op.Val); err != nil {
-					simrt.Fail("oracle:marker", "Move failed without injected fault: "+err.Error())
+				if op.Fault > 0 {
+					disk.SetFaults([]*simfs.Fault{{Name: "marker-move", Errno: "EIO", Skip: op.Fault - 1, Count: 1,
+						Kinds: simfs.KindMask(simfs.OpCreate, simfs.OpWrite, simfs.OpSync, simfs.OpSyncDir, simfs.OpRemove, simfs.OpRename)}})
+				}
+				var err error
+				panicked := false
+				func() {
+					defer func() {
+						if r := recover(); r != nil {
+							// Move panics when the directory sync fails: fail-stop
+							if e, ok := r.(error); !ok || !simfs.IsInjected(e) {
+								panic(r)
+							}
+							panicked = true
+						}
+					}()
+					err = m.Move(op.Val)
+				}()
+				fired := disk.St.FaultFired["marker-move"] > 0
+				disk.St.FaultFired["marker-move"] = 0
+				disk.ClearFaults()
+				if panicked {
+					// the process is gone: whatever is durable decides
+					inDoubt[op.Val] = true
+					res.Stats["moves_panicked"]++
+					doCrash(simfs.Survival{Mode: pick(&hr, []string{"none", "all", "pct"}), Pct: 50, Seed: hr.Next()})
+					break
+				}
+				if err != nil {
+					if !fired {
+						simrt.Fail("oracle:marker", "Move failed without injected fault: "+err.Error())
+					}
+					// in doubt: the marker may read the old or the new value
+					// until a later Move completes
+					inDoubt[op.Val] = true
+					res.Stats["moves_failed"]++
+					break
 				}
 				moves[len(moves)-1].endIdx = disk.LogLen()
 				cur = op.Val
+				inDoubt = map[string]bool{}
 				res.Stats["moves"]++
 			case "removeobsolete":
 				if err := m.RemoveObsolete(); err != nil {
@@ -148,25 +208,21 @@ func (e *markerEngine) Execute(t *testing.T, plan *Plan, res *Result) {
 				m.Close()
 				var v string
 				m, v, err = atomicfs.LocateMarker(disk, "d", "m")
-				if err != nil || v != cur {
-					simrt.Fail("oracle:marker", fmt.Sprintf("LocateMarker = %q, %v; expected %q", v, err, cur))
+				if err != nil || !okValue(v) {
+					simrt.Fail("oracle:marker", fmt.Sprintf("LocateMarker = %q, %v; expected %q (or the value of a failed Move: %v)", v, err, cur, keysOf(inDoubt)))
+				}
+				// Reading a value does not make it durable: if this is the value
+				// of a failed Move, the previous one stays possible after a crash.
+				if v != cur {
+					inDoubt[cur] = true
+					cur = v
 				}
 			case "crash":
-				verify(disk, base)
 				spec := simfs.Survival{Mode: "none"}
 				if op.Surv != nil {
 					spec = *op.Surv
 				}
-				disk = disk.CrashImage(spec)
-				disk.NoYield = true
-				moves = nil
-				base = cur // every completed Move is durable, so the image must hold cur
-				var v string
-				m, v, err = atomicfs.LocateMarker(disk, "d", "m")
-				if err != nil || v != cur {
-					simrt.Fail("oracle:marker", fmt.Sprintf("after crash (survival %s): LocateMarker = %q, %v; expected %q (all Moves had returned)", spec, v, err, cur))
-				}
-				res.Stats["crashes"]++
+				doCrash(spec)
 			}
 			simrt.Progress()
 		}
